@@ -34,6 +34,9 @@ pub struct Peer {
     /// the far end of a long chain, the node under test then holds stepsRemoved 255
     #[serde(default)]
     pub far: bool,
+    /// its Announces carry a PATH_TRACE TLV with this many entries
+    #[serde(default)]
+    pub path_len: Option<usize>,
 }
 
 #[derive(Clone, Debug, serde::Serialize, serde::Deserialize)]
@@ -90,6 +93,13 @@ pub fn run_case(rep: &mut Report, case: &Case, verbose: bool) {
             sim.announce_steps[idx] = Some(254);
             rep.ev("peer_with_steps_removed_254");
         }
+        if let Some(n) = p.path_len {
+            while sim.announce_path_len.len() <= idx {
+                sim.announce_path_len.push(None);
+            }
+            sim.announce_path_len[idx] = Some(n);
+            rep.ev("peer_announcing_a_long_path_trace");
+        }
     }
     // all clocks share the same true-time origin
     for sn in sim.nodes.iter_mut() {
@@ -110,8 +120,18 @@ pub fn run_case(rep: &mut Report, case: &Case, verbose: bool) {
     let rt = case.cfg.ports.iter().map(|p| p.receipt_timeout as u64).max().unwrap_or(3);
     macro_rules! bail_on_panic {
         () => {
-            if sim.panic.is_some() {
-                rep.observe("simulation ended by a panic (see C03)");
+            if let Some((pn, pp, call, p)) = &sim.panic {
+                // a port whose timer call panics never acts again: the host did what the actions
+                // asked for and the port is stuck (panics in other calls are C03's alone)
+                if *pn == a && call.ends_with("Timer") {
+                    rep.violation(
+                        &format!("C12|panic-in-requested-timer-call|{call}|{}", p.site()),
+                        &format!("port {pp}: the {call} call the host made as requested panicked ({}); the port emits nothing and arms nothing from then on", p.describe()),
+                        replay.clone(),
+                    );
+                } else {
+                    rep.observe("simulation ended by a panic (see C03)");
+                }
                 return;
             }
         };
@@ -345,12 +365,20 @@ fn gen_case(rng: &mut StdRng) -> Case {
         start: 1_700_000_000 * SEC,
     };
     let so0 = rng.gen_bool(0.2);
-    let mut peers = vec![Peer { id: 0x10, p1: if so0 { 255 } else { [1u8, 1, 250][rng.gen_range(0..3)] }, slave_only: so0, on_port: 0, far: !so0 && rng.gen_bool(0.2) }];
+    let mut peers = vec![Peer { id: 0x10, p1: if so0 { 255 } else { [1u8, 1, 250][rng.gen_range(0..3)] }, slave_only: so0, on_port: 0, far: !so0 && rng.gen_bool(0.2), path_len: None }];
     if rng.gen_bool(0.6) {
-        peers.push(Peer { id: 0x11, p1: 250, slave_only: rng.gen_bool(0.5), on_port: 0, far: false });
+        peers.push(Peer { id: 0x11, p1: 250, slave_only: rng.gen_bool(0.5), on_port: 0, far: false, path_len: None });
     }
     if n_ports > 1 {
-        peers.push(Peer { id: 0x12, p1: [1u8, 250][rng.gen_range(0..2)], slave_only: rng.gen_bool(0.3), on_port: 1, far: rng.gen_bool(0.1) });
+        peers.push(Peer { id: 0x12, p1: [1u8, 250][rng.gen_range(0..2)], slave_only: rng.gen_bool(0.3), on_port: 1, far: rng.gen_bool(0.1), path_len: None });
+    }
+    if cfg.path_trace && rng.gen_bool(0.5) {
+        // the longest paths that still fit into an Announce, and just beyond
+        for p in peers.iter_mut() {
+            if !p.slave_only && rng.gen_bool(0.7) {
+                p.path_len = Some([0usize, 1, 100, 116, 117, 118, 119, 120, 121][rng.gen_range(0..9)]);
+            }
+        }
     }
     let mut script = vec![];
     for _ in 0..rng.gen_range(1..8) {
@@ -377,9 +405,9 @@ fn gen_p2p_fault_case(rng: &mut StdRng) -> Case {
     c.cfg.class = 248;
     let so = rng.gen_bool(0.7);
     c.peers = vec![
-        Peer { id: 0x10, p1: 1, slave_only: false, on_port: 0, far: false },
-        Peer { id: 0x11, p1: 255, slave_only: so, on_port: 0, far: false },
-        Peer { id: 0x12, p1: 255, slave_only: so, on_port: 0, far: false },
+        Peer { id: 0x10, p1: 1, slave_only: false, on_port: 0, far: false, path_len: None },
+        Peer { id: 0x11, p1: 255, slave_only: so, on_port: 0, far: false, path_len: None },
+        Peer { id: 0x12, p1: 255, slave_only: so, on_port: 0, far: false, path_len: None },
     ];
     let w = |rng: &mut StdRng| FaultOp::Wait(rng.gen_range(8..16));
     c.script = vec![FaultOp::Mute(1, true), FaultOp::Mute(2, true), w(rng), FaultOp::Mute(0, true), w(rng), FaultOp::Mute(1, false), FaultOp::Mute(2, false), FaultOp::Wait(rng.gen_range(3..8))];
@@ -390,7 +418,7 @@ fn gen_p2p_fault_case(rng: &mut StdRng) -> Case {
 
 pub fn run(rep: &mut Report, tier: &str, seed: u64, shard: (u32, u32), replay: Option<&str>) {
     rep.rule = "a real instance (1-2 ports, E2E/P2P, master-only / slave-only, path trace, Kalman or recording filter, the daemon's TLV forwarder) in a simulated segment with 1-3 real peer instances (better / worse / slave-only) is first driven through a random fault script (peers muted and unmuted, links cut, transmit timestamps lost with 30 % / 100 %, slave-only toggled, peer-delay double responders) and then continued with (a) total silence or (b) one steadily announcing better master; bounded-progress and cadence checks in virtual time, with the host model's armed-timer set as witness; distinct = distinct event orders; evaluations = continuations".into();
-    rep.require(&["continuation_silence", "continuation_master", "cadence_checked", "start_state_Listening", "start_state_Master", "start_state_Slave", "start_state_Passive", "start_state_Faulty", "sim_events"]);
+    rep.require(&["continuation_silence", "continuation_master", "cadence_checked", "start_state_Listening", "start_state_Master", "start_state_Slave", "start_state_Passive", "start_state_Faulty", "sim_events", "peer_announcing_a_long_path_trace"]);
     if let Some(path) = replay {
         let v: serde_json::Value = serde_json::from_str(&std::fs::read_to_string(path).unwrap()).unwrap();
         match serde_json::from_value::<Case>(v["case"].clone()) {
